@@ -1515,10 +1515,19 @@ func parseListLevel(s string) int {
 	for _, c := range s {
 		if c >= '0' && c <= '9' {
 			level = level*10 + int(c-'0')
+			// w:ilvl addresses one of the nine levels of a numbering definition
+			// (ECMA-376 17.9.3); anything beyond is damage. Clamping also keeps
+			// indentation proportional to the level from exhausting memory.
+			if level > maxListLevel {
+				return maxListLevel
+			}
 		}
 	}
 	return level
 }
+
+// maxListLevel is the deepest list level (0-based) a numbering definition has.
+const maxListLevel = 8
 
 // Lists returns all parsed lists from the document.
 func (r *Reader) Lists() []ParsedList {
